@@ -83,7 +83,7 @@ def check_c20(tier):
     tevents, mismatches, nitems = session.thread_run(tcs, tlimit, nthreads, reps)
     tverdicts, tsummary, tst = session.validate(tevents)
     recs += _records(tevents, tverdicts, lambda v: v != "operand-modified")
-    hmism, hitems, hcalls = session.thread_hammer(tcs, nthreads, 2 if tier == "quick" else 12, with_poisoned=(tier != "quick"))
+    hmism, hitems, hcalls = session.thread_hammer(tcs, nthreads, 2 if tier == "quick" else 6, with_poisoned=(tier != "quick"))
     omism, oitems = session.order_run(tcs)
     for m in mismatches + hmism + omism:
         recs.append({"kind": "thread-result-differs" if "what" not in m else "process-state-leaked-under-threads", "op": m.get("call", "?"),
